@@ -20,10 +20,12 @@
   c05encb <n>     → b64=<n> raw=<n>
   c05ascw <signed 0|1> <sz> <bytes items-LE>             → toks=<int,…> model=<bytes> (asciiRead of the tokens)
   c05ascr <sz> <list int tokens>                         → model=<bytes>
+  c05fallback <bytes file-content>                       → model=<bytes appendix|E> enc=<bytes encoding name|->
   layout := t:row;row;…:i.j.k|…     row := i.j.k  (`-` = empty)
 -/
 import Driver.Proto
 import FcModel.Spec.C05
+import FcModel.VtkAppendix
 namespace Fc.Drv
 open Fc
 
@@ -195,6 +197,12 @@ def opAscR : P String := do
   let toks ← pList pInt
   pure s!"model={showBytes (asciiRead sz toks)}"
 
+def opFallback : P String := do
+  let content ← pBytes
+  match fallbackAppendix content with
+  | some (app, enc) => pure s!"model={showBytes app} enc={showBytes enc}"
+  | none => pure "model=E enc=-"
+
 def handleC05 (op : String) : Option (P String) :=
   match op with
   | "c05enc" => some opEnc
@@ -209,6 +217,7 @@ def handleC05 (op : String) : Option (P String) :=
   | "c05encb" => some opEncB
   | "c05ascw" => some opAscW
   | "c05ascr" => some opAscR
+  | "c05fallback" => some opFallback
   | _ => none
 
 end Fc.Drv
